@@ -48,6 +48,24 @@ func handedRefs(vals []Val) []*Term {
 	return out
 }
 
+// handedRefsDeep: handedRefs plus one level below pointer parameters: the references, backing
+// arrays and maps held in the fields of the structs they point to, read in state st.
+func handedRefsDeep(st *State, vals []Val) []*Term {
+	out := handedRefs(vals)
+	for _, v := range vals {
+		pt, ok := v.T.Underlying().(*types.Pointer)
+		if !ok || len(v.C) != 1 {
+			continue
+		}
+		if _, isStruct := pt.Elem().Underlying().(*types.Struct); !isStruct || isOpaqueStruct(pt.Elem()) {
+			continue
+		}
+		sv := st.loadStruct(v.C[0], pt.Elem())
+		out = append(out, handedRefs([]Val{sv})...)
+	}
+	return out
+}
+
 func heapGroup(h string) string {
 	if i := strings.LastIndex(h, "."); i > 0 {
 		return h[:i]
@@ -93,7 +111,7 @@ func (ex *Exec) inferredFrames(fi *FuncInfo) map[string]int {
 				params = append(params, v)
 			}
 		}
-		handed := handedRefs(params)
+		handed := handedRefsDeep(sub.pre, params)
 		if con := fi.Contract; con != nil {
 			sub.instantiateGhostFuns(st, con, sub.fnCtx(sub.pre, nil), sub.ghosts, "fp."+sanitize(fi.Key), true)
 			for i, r := range con.Requires {
@@ -280,9 +298,9 @@ func (ex *Exec) preservedHeaps(fi *FuncInfo) map[string]bool {
 // assumeInferredFrames: after the heaps of ms were havocked for a call to fi, re-establish what
 // fi's inferred frames guarantee. before: the heap terms before the havoc; handed: the actual
 // receiver and arguments.
-func (ex *Exec) assumeInferredFrames(st *State, fi *FuncInfo, ms *ModSet, before map[string]*Term, ctrBefore *Term, handed []Val) {
+func (ex *Exec) assumeInferredFrames(st *State, pre *State, fi *FuncInfo, ms *ModSet, before map[string]*Term, ctrBefore *Term, handed []Val) {
 	fr := ex.inferredFrames(fi)
-	refs := handedRefs(handed)
+	refs := handedRefsDeep(pre, handed)
 	for _, h := range ms.heapNames() {
 		k := fr[h]
 		if k == frameNone {
@@ -303,4 +321,3 @@ func (ex *Exec) assumeInferredFrames(st *State, fi *FuncInfo, ms *ModSet, before
 	}
 }
 
-var _ = types.Typ
